@@ -11,11 +11,11 @@ M2 (`KmipModel/Prim.lean`, Python-faithful primitives).  One JSON object per inp
       ("reqver":[major,minor] = protocol version of the decoded request, or null) and "faults":[…] is added,
       and "composed":B — the tree is exactly what `Kmip.Envelope.buildResponse` composes from its own contents
   {"op":"enc","ty":N,"tag":N,"v":V}
-      V = decimal string (ty 2,3,4,5,9,10) | bool (6) | [code points] (7) | hex (8)
+      V = decimal string (ty 2,3,4,5,9,10) | bool (6) | [code points] (7; "dec" answers text as UTF-8 hex) | hex (8)
       {"constructible":B,"py":{"ok":H}|{"err":E},"pyre":H|null,"spec":H|null}
       pyre = M2 `pyReencode`: what an object filled by read() (not by the constructor) writes
       py = M2 `pyEncode`; spec = M1 `encode` of the same value read as the specification does
-      (Text String = UTF-8 of the code points), null when the specification has no encoding for it
+      null when the specification has no encoding for it
   {"op":"schemas"}                       names of the M3 schema table
   {"op":"schema","name":S,"ver":N,"hex":H}
       M3: strict M1 parse, then `Kmip.Schema.decodeS` of the named schema under version N (10..20):
@@ -87,7 +87,7 @@ def jPyVal : PyVal → Json
   | .bigInteger v => jInt v
   | .enumeration v => jInt v
   | .boolean b => Json.bool b
-  | .textString cps => Json.arr (cps.map (fun (c : Nat) => Json.num (c : JsonNumber))).toArray
+  | .textString s => hex s
   | .byteString s => hex s
   | .dateTime v => jInt v
   | .interval v => jInt v
@@ -99,7 +99,13 @@ def pPyVal (ty : Nat) (j : Json) : P PyVal := do
   | 4 => .bigInteger <$> asIntStr j
   | 5 => .enumeration <$> asIntStr j
   | 6 => .boolean <$> asBool j
-  | 7 => do pure (.textString (← (← asArr j).toList.mapM asNat))
+  | 7 => do
+    -- a str given as code points; represented by its UTF-8 bytes (a lone surrogate has none: the constructor
+    -- of /repo raises on it, answered as not constructible by the caller)
+    let cps ← (← asArr j).toList.mapM asNat
+    if cps.all (fun c => c < 0x110000 ∧ ¬ (0xD800 ≤ c ∧ c < 0xE000)) then
+      pure (.textString (String.ofList (cps.map Char.ofNat)).toUTF8.toList)
+    else throw "not-a-str"
   | 8 => do pure (.byteString (← unhex (← asStr j)))
   | 9 => .dateTime <$> asIntStr j
   | 10 => .interval <$> asIntStr j
@@ -112,16 +118,13 @@ def specVal : PyVal → Option PVal
   | .bigInteger v => some (.bigInteger v (bigLen v))
   | .enumeration v => if 0 ≤ v then some (.enumeration v.toNat) else none
   | .boolean b => some (.boolean b)
-  | .textString cps =>
-      if cps.all (fun c => c < 0x110000 ∧ ¬ (0xD800 ≤ c ∧ c < 0xE000)) then
-        some (.textString (String.ofList (cps.map Char.ofNat)).toUTF8.toList)
-      else none
+  | .textString s => some (.textString s)
   | .byteString s => some (.byteString s)
   | .dateTime v => some (.dateTime v)
   | .interval v => if 0 ≤ v then some (.interval v.toNat) else none
 
 def errName : EncErr → String
-  | .packRange => "packRange" | .nonAscii => "nonAscii" | .lengthOverflow => "lengthOverflow"
+  | .packRange => "packRange" | .notUtf8 => "notUtf8" | .lengthOverflow => "lengthOverflow"
 def derrName : DecErr → String
   | .short => "short" | .tag => "tag" | .type => "type" | .length => "length" | .pad => "pad" | .value => "value"
 
@@ -187,7 +190,14 @@ def step (line : String) : String :=
       | "enc" => do
         let ty ← asNat (jget j "ty")
         let tag ← asNat (jget j "tag")
-        let v ← pPyVal ty (jget j "v")
+        let v ← (match pPyVal ty (jget j "v") with
+          | .error "not-a-str" => pure none
+          | .error e => throw e
+          | .ok v => pure (some v))
+        match v with
+        | none => pure (Json.mkObj [("constructible", Json.bool false), ("py", Json.mkObj [("err", "notUtf8")]),
+                                    ("pyre", Json.null), ("spec", Json.null)])
+        | some v =>
         let py := match pyEncode tag v with
           | .ok bs => Json.mkObj [("ok", hex bs)]
           | .error e => Json.mkObj [("err", errName e)]
